@@ -120,6 +120,21 @@ def gen_rounds(seed, tier, run):
                 if op in ("stack", "concatenate"):
                     rag.append(f"{op} {L([arr(s1), arr(s2, base=50)])} z1")
     run(rag)
+    # lane operations whose per-lane results differ in length (ragged): the re-assembly must refuse them, along every
+    # axis — the last one included (seeded change C01h: a fast path for the last axis skipped the reshape that checks it)
+    lanes = []
+    for sh in shapes(3, 3):
+        if len(sh) < 2:
+            continue
+        n = len(sh)
+        for ax in range(-n, n):
+            for _ in range(4):
+                es = [rng.randint(0, 2) for _ in range(prod(sh))]
+                lanes.append(f"unique {arr(sh, es)} z{ax}")
+            es = list(range(prod(sh)))
+            es[0] = es[-1]
+            lanes.append(f"unique {arr(sh, es)} z{ax}")
+    run(lanes)
     # surface sweep
     per = 250 if tier == "quick" else 3000
     sweep = []
